@@ -24,6 +24,9 @@ RULE = ("product lattice strength median x strength std x load std x scan line {
         "<= 1/20 (quadrature has to resolve a feature much narrower than its interval)")
 ASSUMPTIONS = [
     "tolerance |p - Phi(z)| <= 1e-9 + 1e-4 min(Phi, 1 - Phi) (DESIGN.md C15): quadrature, not closed form",
+    "lower tail (1e-12 <= Phi < 1e-6): additionally |p - Phi| <= 0.25 Phi for pf_norm_load (the absolute 1e-9 is vacuous there; the upper "
+    "tail cannot be judged relatively because 1 - p does not resolve below quad's absolute tolerance) and <= 1e-3 Phi for the finest rung of "
+    "the sampled-density ladder at z0 = -6, -5",
     "monotony is judged up to the same absolute 1e-9; strict increase is demanded where Phi(z) itself grows by more than 1e-6",
     "'tends to the deterministic-load value': errors against pf_simple_load for load std 1e-3, 1e-4, 1e-5 do not grow (slack 1e-9) "
     "and the last one is within the tolerance above of the analytic difference Phi(z0 s/sqrt(s^2 + 1e-10)) - Phi(z0)",
@@ -36,6 +39,11 @@ ASSUMPTIONS = [
 _N01 = NormalDist()
 TOL_ABS, TOL_REL = 1e-9, 1e-4
 Z0S = (-3.0, -1.0, 0.0, 0.5, 2.0)
+Z0S_TAIL = (-6.0, -5.0)      # sampled-density ladder in the far lower tail (judged relatively, on the finest rung)
+TAIL_REL = 0.25              # lower tail (1e-12 <= Phi < 1e-6) of pf_norm_load: |p - Phi| <= 0.25 Phi.  The absolute 1e-9 of the
+                             # main clause is vacuous there; observed on the repaired tree: <= 5 % (quad stops on its absolute
+                             # tolerance), so 25 % separates "right order of magnitude" from "0, 1 or a collapsed tail"
+LADDER_TAIL_REL = 1e-3       # finest rung of the sampled-density ladder, observed 6e-7
 VANISH = (1e-3, 1e-4, 1e-5)
 GRIDS = (201, 801, 3201)
 
@@ -53,7 +61,8 @@ def bounds(tier):
     b["scan_lines"] = ("load-median-varies", "strength-median-varies")
     b["vanishing_load_std_ladder"] = VANISH
     b["arbitrary_load_grid_points"] = GRIDS
-    b["ladder_z0"] = Z0S
+    b["ladder_z0"] = Z0S + Z0S_TAIL
+    b["lower_tail_relative_tolerance"] = {"pf_norm_load (1e-12 <= Phi < 1e-6)": TAIL_REL, "pf_arbitrary_load finest rung": LADDER_TAIL_REL}
     return b
 
 
@@ -128,6 +137,10 @@ def check_scan(case):
         viol.append(("C15/pf_norm_load/value/%s" % cls,
                      {"worst_z": worst[1], "got": worst[2], "Phi(z)": worst[3], "abs_error": abs(worst[2] - worst[3]),
                       "tolerance": _tol(worst[3]), "z_values_out_of_tolerance": nbad, "std_ratio_load/strength": ls / ss}))
+    tail = [(z, p, _N01.cdf(z)) for z, p in zip(zs, ps) if 1e-12 <= _N01.cdf(z) < 1e-6 and not abs(p - _N01.cdf(z)) <= TAIL_REL * _N01.cdf(z)]
+    if tail:
+        viol.append(("C15/pf_norm_load/lower-tail-relative/%s" % cls,
+                     {"(z, got, Phi(z))": tail[:4], "allowed_relative_error": TAIL_REL, "std_ratio_load/strength": ls / ss}))
     if any(not (0.0 <= p <= 1.0) for p in ps):
         bad = [(z, p) for z, p in zip(zs, ps) if not (0.0 <= p <= 1.0)]
         viol.append(("C15/pf_norm_load/outside-unit-interval", {"(z, p)": bad[:5]}))
@@ -186,7 +199,7 @@ def check_ladder(case):
     viol, nev, out, stats = [], 0, [], {"unresolved_finest": 0, "unresolved_pairs": 0}
     try:
         fp = FailureProbability(sm, ss)
-        for z0 in Z0S:
+        for z0 in Z0S + Z0S_TAIL:
             lm = math.log10(sm) + z0 * tot
             e = _N01.cdf(z0)
             errs, hs = [], []
@@ -209,6 +222,9 @@ def check_ladder(case):
             if hs[2] <= ss:
                 if not (errs[2] <= 1e-4):
                     viol.append(("C15/pf_arbitrary_load/not-converged", {"z0": z0, "grid_points": GRIDS, "abs_error": errs}))
+                elif z0 in Z0S_TAIL and not (errs[2] <= LADDER_TAIL_REL * e):
+                    viol.append(("C15/pf_arbitrary_load/lower-tail-relative", {"z0": z0, "Phi(z0)": e, "abs_error_finest": errs[2],
+                                                                               "allowed_relative_error": LADDER_TAIL_REL}))
             else:
                 stats["unresolved_finest"] += 1
     except Exception as e:
